@@ -3,6 +3,7 @@ SPEC = {
     "package": "vh-tx",
     "bin": "c14",
     "level": "exploration",
+    "events": True,
     "rule": ("A case is one transaction request (0-4 inputs/outputs per pool among transparent P2PKH / 2-of-3 P2SH / null-data, "
              "Sapling, Orchard, Ironwood; boundary values; memos; recipients and senders from three accounts whose keys the "
              "harness owns; a target height from a menu straddling every upgrade from Heartwood to NU6.3; optional explicit "
@@ -15,32 +16,27 @@ SPEC = {
     "assumptions": [
         "sapling-crypto / orchard / zcash_note_encryption (dependency crates) are the reference for note encryption, trial decryption, nullifier derivation and proof/binding-signature verification",
         "secp256k1 (libsecp256k1 binding) is the reference for ECDSA verification; sha2 + ripemd for HASH160",
-        "zcash_primitives::transaction::sighash::{v4,v5,v6}_signature_hash is taken as the signature hash (its own correctness is C04's subject)",
+        "signatures are verified under zcash_primitives' v4/v5/v6 signature hash; for v4 and v5 transactions built directly, that digest is additionally recomputed from the wire bytes and the coins by lib/pyref/zip244.py (ZIP 244 / ZIP 243 written from the ZIP texts, self-tested against the vectors shipped in the repository); v6 digests have no independent reference here (C04's subject)",
         "fee for the final shape: ZIP 317 formula re-implemented in the oracle with the rule's parameters; a P2PKH input counts ZIP 317's standard 150 bytes and a 2-of-3 P2SH input its maximal 299 bytes, outputs their serialised size, actions/spends/outputs are counted in the wire form of the built transaction (or in the PCZT's effects)",
         "Merkle paths are produced by a naive depth-32 tree in the harness from incrementalmerkletree's Hashable implementations",
         "real-prover sample: Sapling parameters bundled in zcash_proofs, Orchard proving keys built in-process",
     ],
     "tiers": {
-        "quick": {"shards": 9, "budget_s": 62, "extra": {}},
+        "quick": {"shards": 9, "budget_s": 55, "extra": {}},
         "thorough": {"shards": 15, "budget_s": 1300, "extra": {}},
     },
     "floors": {
         "quick": {
-            "evaluations": 1500, "distinct_nontrivial": 800,
-            "builds_ok": 500, "builds_ok:build": 120, "builds_ok:mock_build": 30, "builds_ok:build_for_pczt": 200,
-            "builds_ok:deferred_pczt": 10, "builds_ok:build-proved": 6,
-            "unbalanced_refused": 200, "refused_at_fee_minus_1": 30, "refused_at_fee_plus_1": 30,
-            "version_refused": 5, "refused:propose_version:TargetIncompatible(None)": 10,
-            "outputs_decrypted_by_recipient": 500, "padding_outputs_seen": 300,
-            "pczt_padding_spends_checked_zero": 150,
-            "p2pkh_signatures_verified": 500, "p2sh_multisig_inputs_verified": 30, "pczt_spends_finalised": 100,
-            "ok_with_2plus_transparent_inputs": 100,
-            "ok_with_sapling": 150, "ok_with_sapling_padding_outputs": 60,
-            "ok_with_orchard": 80, "ok_with_orchard_padding_actions": 30,
-            "ok_with_ironwood": 30, "ok_with_ironwood_padding_actions": 5,
-            "ok_with_nonstandard_fee_rule": 150, "ok_above_grace_or_custom": 200,
-            "epoch:Canopy": 20, "epoch:Nu5": 100, "epoch:Nu6": 50, "epoch:Nu6_2": 100, "epoch:Nu6_3": 150,
-            "tx_reparsed_same_txid": 150, "handmade_probes": 6,
+            "evaluations": 800, "distinct_nontrivial": 650, "builds_ok": 400, "builds_ok:build": 100,
+            "builds_ok:mock_build": 30, "builds_ok:build_for_pczt": 200, "builds_ok:deferred_pczt": 10, "builds_ok:build-proved": 4,
+            "unbalanced_refused": 200, "refused_at_fee_minus_1": 30, "refused_at_fee_plus_1": 30, "version_refused": 5,
+            "refused:propose_version:TargetIncompatible(None)": 10, "outputs_decrypted_by_recipient": 350, "padding_outputs_seen": 300, "pczt_padding_spends_checked_zero": 150,
+            "p2pkh_signatures_verified": 300, "p2sh_multisig_inputs_verified": 30, "pczt_spends_finalised": 100, "ok_with_2plus_transparent_inputs": 60,
+            "ok_with_sapling": 150, "ok_with_sapling_padding_outputs": 60, "ok_with_orchard": 80, "ok_with_orchard_padding_actions": 30,
+            "ok_with_ironwood": 30, "ok_with_ironwood_padding_actions": 5, "ok_with_nonstandard_fee_rule": 150, "ok_above_grace_or_custom": 200,
+            "epoch:Canopy": 20, "epoch:Nu5": 100, "epoch:Nu6": 45, "epoch:Nu6_2": 100,
+            "epoch:Nu6_3": 100, "tx_reparsed_same_txid": 150, "handmade_probes": 6, "py_sighash_digests_checked": 150,
+            "py_sighash_v5": 50, "py_sighash_v4": 30,
         },
         "thorough": {
             "evaluations": 30000, "distinct_nontrivial": 8000,
@@ -55,7 +51,7 @@ SPEC = {
             "ok_with_orchard_padding_actions": 600, "ok_with_ironwood_padding_actions": 100,
             "ok_with_nonstandard_fee_rule": 3000,
             "proved_sapling_bundles_verified": 40, "proved_orchard_bundles_verified": 30, "proved_ironwood_bundles_verified": 10,
-            "handmade_probes": 6,
+            "handmade_probes": 6, "py_sighash_digests_checked": 1500,
         },
     },
     "manifest": {
@@ -64,3 +60,54 @@ SPEC = {
         "note": "Trusted: dependency crates for note encryption / proof verification / ECDSA. The real provers are exercised on a small sample only (cost); Orchard-family volume comes from the PCZT paths, where contents are judged on the PCZT's effects. Error amounts and OVK recoverability are recorded as diagnostics (not part of the statement).",
     },
 }
+
+
+def post(shards, fold, tier, seed):
+    """Python reference for the transparent signature digests (ZIP 244 for v5, ZIP 243 for v4)."""
+    import json
+    import os
+    import sys
+    sys.path.insert(0, os.path.join(os.path.dirname(os.path.dirname(os.path.abspath(__file__)))))
+    import driver
+    from pyref import txlayout, zip244
+    try:
+        st = zip244.selftest(driver.REPO)
+        fold.count("py_zip244_vectors_validated", st.get("zip244_vectors", 0))
+    except Exception as e:  # a broken oracle is a broken check, not a finding
+        fold.broken.append("zip244.py selftest against the shipped vectors failed: %r" % (e,))
+        return
+    for s in shards:
+        if not s.events_path or not os.path.exists(s.events_path):
+            continue
+        for line in open(s.events_path):
+            ev = json.loads(line)
+            if ev.get("kind") != "sighash":
+                continue
+            raw = bytes.fromhex(ev["raw"])
+            try:
+                tx = txlayout.parse_tx(raw)
+            except Exception as e:
+                fold.violation("C14:%s:built-tx-rejected-by-layout-reference" % ev["path"],
+                               [{"detail": "txlayout.parse_tx: %r" % (e,), "replay": {"raw": ev["raw"]}}])
+                continue
+            coins = [(v, bytes.fromhex(sc)) for v, sc in ev["coins"]]
+            for i in ev["inputs"]:
+                idx, ht = i["index"], i["hash_type"]
+                try:
+                    if tx.version == 5:
+                        ref = zip244.signature_digest(tx, coins, ht, idx).hex()
+                        fold.count("py_sighash_v5")
+                    elif tx.version == 4:
+                        ref = zip244.sighash_v34(tx, ev["branch_id"], ht, idx, bytes.fromhex(i["script_code"]), coins[idx][0]).hex()
+                        fold.count("py_sighash_v4")
+                    else:
+                        fold.count("py_sighash_skipped_v%d" % tx.version)
+                        continue
+                except Exception as e:
+                    fold.inconc("py-reference-error:%s" % type(e).__name__)
+                    continue
+                fold.count("py_sighash_digests_checked")
+                if ref != i["digest"]:
+                    fold.violation("C14:%s:signature-digest-differs-from-zip-reference:v%d" % (ev["path"], tx.version),
+                                   [{"detail": "input %d hash type %d: library digest %s, reference %s" % (idx, ht, i["digest"], ref),
+                                     "replay": {"raw": ev["raw"], "coins": ev["coins"], "input": i}}])
